@@ -102,7 +102,7 @@ def snap1(h: Histogram1D) -> dict:
         "freq": [rs(x) for x in h.frequencies],
         "err2": [rs(x) for x in h.errors2],
         "under": nrs(h.underflow), "over": nrs(h.overflow), "inner": nrs(h.inner_missed),
-        "keep": bool(h.keep_missed), "dtype": str(h.dtype), "total": rs(h.total),
+        "keep": bool(h.keep_missed), "dtype": str(h.dtype), "total": nrs(h.total),
         "adaptive": bool(h.is_adaptive()), "binning": binning_meta(h.binning), "stats": snap_stats(h),
         # consistency facts the model has by construction (compared by the oracles, not the diff)
         "_freq_dtype": str(h.frequencies.dtype), "_err2_dtype": str(h.errors2.dtype),
